@@ -155,6 +155,44 @@ def check_spec(spec: NetSpec, label, st: Stats, plan):
                         problems.append((f"C03/positivity-options/{oname}/{sym}", f"{sym} compact={compact} with the {oname} positivity "
                                          f"options: {bad} at {vlabel}", dict(case, val={f"{k[0]}.{k[1]}": v for k, v in val.items()})))
                         break
+    # the same engine object and the same network: step and compile with OTHER model parameters first, then step and compile
+    # again (same argument names) - the second function is the second step
+    if plan.get("supply"):
+        from ..harness import Compiled as _C2
+        P_other = MODEL_PARAMS[2] if P is not MODEL_PARAMS[2] else MODEL_PARAMS[0]
+        base = list(valgen.vectors(spec, 0))
+        for sym in plan["supply"]:
+            st.inc("transitions", 4)
+            case = {"spec": spec.describe(), "config": label, "P": P, "sym": sym, "supplied": [], "recompiled": True}
+            try:
+                eng = env.casadi_engine(sym)
+                b_ = build(spec)
+                b_.net.step(engine=eng, **P_other)
+                eng.to_function(b_.net, compact=0)
+                eng.to_function(b_.net, compact=2, more_out=True, **P_other)
+                b_.net.step(engine=eng, **P)
+                outs = _C2(eng.to_function(b_.net, compact=0), b_).eval_many([v for _, v in base])
+            except Exception as e:  # noqa: BLE001
+                problems.append((f"C03/exception/{exc_site(e)}/{type(e).__name__}", f"{sym}, step/compile/step/compile on one engine: "
+                                 f"{exc_text(e)}", case))
+                continue
+            st.inc("executions", len(base))
+            for (vlabel, val), o in zip(base, outs):
+                ref = np_step(spec, val, P)[0]
+                bad = None
+                for (key, var), lst in ref.items():
+                    for j, e in enumerate(lst):
+                        x = float(o[(key, var)][j])
+                        st.inc("components_compared")
+                        if not (close(x, e) or (x != x and e != e)):
+                            bad = f"next {var}[{j}] of {key} = {x!r}, NumPy gives {e!r}"
+                            break
+                    if bad:
+                        break
+                if bad:
+                    problems.append((f"C03/recompiled/{sym}", f"{sym}: function compiled after step(P'), compile, step(P) on the same "
+                                     f"engine and network: {bad} at {vlabel}", case))
+                    break
     # whole-number states given to the NumPy engine as arrays of INTEGER dtype (legal caller input) against the function
     if plan.get("supply"):
         from ..harness import Compiled as _C, cs_compile as _cc
@@ -243,7 +281,7 @@ def plans(tier, seed):
     if tier == "quick":
         jobs = [({"pset": 0, "d": 1, "variants": variants("quick")}, [(lab, s) for _, lab, s in all_specs(3, 3, 0, pal)]
                  + [(f"harness:{k}", s) for k, s in harness_specs(pal).items()]),
-                ({"pset": 0, "d": 1, "variants": light}, [(lab, s) for _, lab, s in all_specs(3, 3, 1, pal)]),
+                ({"pset": 0, "d": 1, "variants": light}, [(lab, s) for _, lab, s in all_specs(3, 3, 1, pal) if lab.startswith("dev:")]),
                 ({"pset": 0, "d": -1, "variants": [], "supply": ["SX"], "posopts": [("SX", 0), ("MX", 2)]},
                  [(lab, s) for _, lab, s in all_specs(3, 3, 0, pal) if lab in ("base", "mixed", "all-vsl", "all-main/ramp_in")]
                  + [(f"harness:{k}", s) for k, s in harness_specs(pal).items()])]
